@@ -65,9 +65,9 @@ def data_model(I, st, n, addrs=None, lid=LID):
     return lst
 
 
-def explore(ctx, fn, n, mode, kind, faults=1, loop_limit=None, preheld=None, addrs=None):
+def explore(ctx, fn, n, mode, kind, faults=1, loop_limit=None, preheld=None, addrs=None, acq_limit=None):
     """Enumerate the abstract paths of one collection operation over a lockable with n leaves (helpers inlined)."""
-    key = (ctx.path, fn["id"], n, faults, loop_limit, preheld, tuple(addrs) if addrs else None)
+    key = (ctx.path, fn["id"], n, faults, loop_limit, preheld, tuple(addrs) if addrs else None, acq_limit)
     if key in _cache:
         return _cache[key]
     I = ctx.M["make"]()
@@ -76,7 +76,8 @@ def explore(ctx, fn, n, mode, kind, faults=1, loop_limit=None, preheld=None, add
         if p in ctx.A.role:
             del I.primitives[p]
     I.max_faults = faults
-    I.state_limit = 5000000
+    I.acq_limit = acq_limit
+    I.state_limit = 2000000 if tier_n() >= 4 else 300000
     I.loop_limit = loop_limit or (n + 3)
     st = State()
     lst = data_model(I, st, n, addrs)
@@ -179,7 +180,8 @@ def _run_all(ctx, tier_n):
                 if n > 4:
                     continue
                 ll = (n + 2) * (RETRIES + 1)      # RETRIES full retry rounds, then the path is cut
-            paths, err = explore(ctx, f, nn, mode, kind, faults=tier_faults(), loop_limit=ll, preheld=pre)
+            paths, err = explore(ctx, f, nn, mode, kind, faults=tier_faults(), loop_limit=ll, preheld=pre,
+                                 acq_limit=(RETRIES + 1) if ll else None)
             out[(label, n)] = (f, kind, mode, paths, err)
     return out
 
